@@ -1,4 +1,5 @@
 import VoluteModel.Model.Ops
+import VoluteModel.Model.CanonGen
 
 /-!
 # Model of src/canonization.rs
@@ -11,97 +12,6 @@ them (the Hamiltonicity certificates of `Props/C04` are `decide +kernel` computa
 
 namespace VoluteModel
 open Gen
-
-/-! ## sequence generators (canonization.rs:64-151) -/
-
-/-- `usize::trailing_zeros` (64 for zero) -/
-def trailingZerosFuel : Nat → Nat → Nat
-  | 0, _ => 0
-  | fuel + 1, x => if x % 2 = 1 then 0 else 1 + trailingZerosFuel fuel (x / 2)
-
-def trailingZeros (x : Nat) : Nat := trailingZerosFuel 64 x
-
-/-- `generate_gray_flips` -/
-def generateGrayFlips (nbBits : Nat) (rollback : Bool) : List Nat :=
-  let end_ := 1 <<< nbBits
-  let flips := (List.range (end_ - 1)).map (fun k =>
-    let i := k + 1
-    let j := i - 1
-    let pred := j ^^^ (j >>> 1)
-    let gray := i ^^^ (i >>> 1)
-    let diff := pred ^^^ gray
-    trailingZeros diff)
-  if rollback then flips ++ [nbBits - 1] else flips
-
-/-- the loop of `check_permutation_swap` (`assert_eq!` failing is `false`) -/
-def checkPermutationSwap (p1 p2 : List Nat) (ind : Nat) : Bool :=
-  p1.length == p2.length &&
-  (List.range (p1.length - 1)).all (fun i => (i == ind || i == ind + 1) || p1[i]? == p2[i]?) &&
-  (ind + 1 < p1.length) &&
-  p1[ind]? == p2[ind + 1]? && p1[ind + 1]? == p2[ind]?
-
-/-- first index below `len - 1` where the two lists differ -/
-def firstDiff : List Nat → List Nat → Nat → Option Nat
-  | a :: as, b :: bs, i =>
-    match as, bs with
-    | [], _ => none          -- index len-1 is not inspected
-    | _, [] => none
-    | _ :: _, _ :: _ => if a != b then some i else firstDiff as bs (i + 1)
-  | _, _, _ => none
-
-/-- `find_permutation_swap`: `none` is a failed assertion or the final `panic!` -/
-def findPermutationSwap (p1 p2 : List Nat) : Option Nat :=
-  if p1.length != p2.length then none
-  else match firstDiff p1 p2 0 with
-    | none => none
-    | some i => if checkPermutationSwap p1 p2 i then some i else none
-
-/-- `Vec::insert` -/
-def insertAt (x : Nat) : Nat → List Nat → List Nat
-  | 0, l => x :: l
-  | _ + 1, [] => [x]
-  | j + 1, a :: l => a :: insertAt x j l
-
-/-- all insertions of `x` into `cur`, positions increasing -/
-def insertionsUp (x : Nat) (cur : List Nat) : List (List Nat) :=
-  (List.range (cur.length + 1)).map (fun j => insertAt x j cur)
-
-/-- one level of `generate_single_swap_permutations`: `i` is the running index (parity) -/
-def sjtLevel (x : Nat) : List (List Nat) → Nat → List (List Nat)
-  | [], _ => []
-  | cur :: rest, i =>
-    (if i % 2 = 0 then insertionsUp x cur else (insertionsUp x cur).reverse) ++ sjtLevel x rest (i + 1)
-
-/-- `generate_single_swap_permutations` -/
-def generateSingleSwapPermutations : Nat → List (List Nat)
-  | 0 => [[]]
-  | 1 => [[0]]
-  | 2 => [[1, 0], [0, 1]]
-  | n + 1 => sjtLevel n (generateSingleSwapPermutations n) 0
-
-/-- swaps between consecutive permutations -/
-def consecutiveSwaps : List (List Nat) → Option (List Nat)
-  | [] => some []
-  | [_] => some []
-  | p :: q :: rest =>
-    match findPermutationSwap p q, consecutiveSwaps (q :: rest) with
-    | some s, some ss => some (s :: ss)
-    | _, _ => none
-
-/-- `generate_swaps` -/
-def generateSwaps (n : Nat) (rollback : Bool) : Option (List Nat) :=
-  let perms := generateSingleSwapPermutations n
-  match consecutiveSwaps perms with
-  | none => none
-  | some swaps =>
-    if rollback && !swaps.isEmpty then
-      match perms.getLast?, perms.head? with
-      | some l, some f =>
-        match findPermutationSwap l f with
-        | some s => some (swaps ++ [s])
-        | none => none
-      | _, _ => none
-    else some swaps
 
 /-! ## the walks (canonization.rs:153-223) -/
 
